@@ -117,14 +117,20 @@ def gen_case(rng):
     return ' '.join(stmts), expected, tick
 
 
-def run_case(seed, script, tick, policy, depth, max_steps=200000, runs=1):
+COMPANIONS = ['time 0.07 repeat 6 begin on "A" end',
+              'time 0.3 wait wait time 0.01 repeat 4 wait',
+              'repeat 3 begin time 0.2 wait end print 1']
+
+
+def run_case(seed, script, tick, policy, depth, max_steps=200000, runs=1,
+             tick_as_text=False, companion=None):
     env.THREAD_EXCEPTIONS.clear()
     env.MACHINE_STOPS.clear()
     events = []
     s = sched.begin(seed, policy=policy, depth=depth, max_steps=max_steps)
     outcome = {'deadlock': None}
     try:
-        vsys.configure(DEVICES, tick)
+        vsys.configure(DEVICES, tick, tick_as_text=tick_as_text)
         job = ScriptJob.from_string(script)
         assert job.program is not None, job.compile_errors
         vsys.ClockProbe(job._machine._clock, events)
@@ -135,6 +141,10 @@ def run_case(seed, script, tick, policy, depth, max_steps=200000, runs=1):
             return execute()
         job.execute = probed_execute
         jc = job_control.JobControl()
+        if companion is not None:
+            # another script with its own delays, running alongside as a
+            # background job: every machine keeps its own time line
+            jc.spawn_job(ScriptJob.from_string(COMPANIONS[companion]), 'bg')
         for _ in range(runs):
             # (a further run of the same job object starts the moment the
             # previous one has ended: its clock thread may still be around)
@@ -325,10 +335,20 @@ def run_shard(ctx):
             expected = expected * runs
             budget *= runs
             ctx.count('scenarios_with_reruns')
-        out = run_case(seed, script, tick, policy, depth, budget, runs)
+        tick_as_text = rng.random() < 0.3
+        companion = rng.randrange(len(COMPANIONS)) \
+            if rng.random() < 0.25 and tick >= 0.1 else None
+        if companion is not None:
+            budget += 40000
+            ctx.count('scenarios_with_companion_job')
+        if tick_as_text:
+            ctx.count('scenarios_with_tick_given_as_text')
+        out = run_case(seed, script, tick, policy, depth, budget, runs,
+                       tick_as_text, companion)
         replay = {'script': script, 'tick': tick, 'policy': policy,
                   'depth': depth, 'seed': seed, 'expected': expected,
-                  'runs': runs}
+                  'runs': runs, 'tick_as_text': tick_as_text,
+                  'companion': companion}
         ok = check_rules(ctx, out, expected, replay, script)
         ctx.case(sig(out['schedule']), nontrivial=bool(out.get('waited')))
         ctx.count('scheduler_steps', out['steps'])
@@ -372,7 +392,8 @@ def replay(doc):
     r = doc['replay']
     ctx = Ctx('C10', 'quick', 0, 0, 1)
     out = run_case(r['seed'], r['script'], r['tick'], r['policy'], r['depth'],
-                   2000000, r.get('runs', 1))
+                   2000000, r.get('runs', 1), r.get('tick_as_text', False),
+                   r.get('companion'))
     for e in out['events'][:200]:
         print(e)
     check_rules(ctx, out, [tuple(x) for x in r['expected']], r, r['script'])
